@@ -23,6 +23,7 @@ the public functions of the numeric modules are therefore wrapped (harness-side 
                                                                                   behind the validation switch)
       ambient-python-O  f(a) in the module compiled with optimize=1              -- work done inside an assert statement
       threads      f(a) from four threads at once, switch interval 1 us          -- module-level scratch arrays
+      revisit      the first calls of the run again after 40, 300, 700 ... other calls -- bounded memos (ring tables) that wrap around
       retained     f(a) -> r; f(a*1.001); r still holds f(a)                    -- one result buffer shared by all calls
       result-edit  f(a) -> r; r *= 2 (caller's in-place use); f(a)              -- a memo handing out its own storage
 * layout probe (same schedule): a float ndarray argument passed Fortran-ordered, as a transposed view or as a strided view must give
@@ -306,7 +307,15 @@ def _layout_variants(a):
         sl = tuple(slice(None, None, 2) for _ in a.shape)
         big[sl] = a
         out.append(('strided-view', big[sl]))
+    ro = a.copy()
+    ro.setflags(write=False)
+    out.append(('read-only', ro))          # frombuffer / broadcast_to / memory-mapped data: a function of its arguments does not write to them
     return out
+
+
+def _readonly(a):
+    a.setflags(write=False)
+    return a
 
 
 def _layout_probe(modname, name, f, args, kw, live):
@@ -349,6 +358,40 @@ def _keyword_probe(modname, name, f, args, kw, live):
                                  'original_container': 'positional-arguments', 'args': _plain(args), 'names': [p.name for p in ps[:len(args)]],
                                  'result': _plain(live[1]) if live[0] == 'ok' else 'raised ' + str(live[1]),
                                  'result_other_container': _plain(r[1]) if r[0] == 'ok' else 'raised ' + str(r[1])})
+
+
+def _equal_not_identical(a):
+    """an argument that compares equal but is another object of another (duck-)type: a string built at run time (not interned), a flag
+    given as 0/1 or numpy.bool_ instead of False/True"""
+    if isinstance(a, str) and a:
+        return [('run-time string', ''.join(list(a)))]
+    if isinstance(a, bool):
+        return [('int flag', int(a)), ('numpy.bool_ flag', np.bool_(a))]
+    return []
+
+
+def _identity_probe(modname, name, f, args, kw, live):
+    """`x is CONSTANT` / `flag is False` tests: the outcome may depend on the VALUE of a string or flag argument, not on which object
+    carries it"""
+    if live[0] != 'ok' or _flat(live[1]) is None:
+        return
+    items = [('arg', i, a) for i, a in enumerate(args)] + [('kw', k, v) for k, v in kw.items()]
+    for where, key, a in items:
+        for label, v in _equal_not_identical(a):
+            b, k2 = list(copy.deepcopy(args)), copy.deepcopy(kw)
+            if where == 'arg':
+                b[key] = v
+            else:
+                k2[key] = v
+            r = _call(f, b, k2)
+            STATS['identity_probes'] = STATS.get('identity_probes', 0) + 1
+            bad = r[0] != 'ok' or not _close(live[1], r[1])
+            if bad and len(CONTAINER_EVENTS) < 40:
+                CONTAINER_EVENTS.append({'fn': '%s.%s' % (modname.split('.')[-1], name), 'arg_index': key if where == 'arg' else -2, 'container': label,
+                                         'original_container': type(a).__name__ + ' literal', 'args': _plain(args), 'kwargs': _plain(kw),
+                                         'identity': {'where': where, 'key': key, 'value': _plain(a), 'as': label},
+                                         'result': _plain(live[1]), 'result_other_container': _plain(r[1]) if r[0] == 'ok' else 'raised ' + str(r[1])})
+                return
 
 
 def _container_probe(modname, name, f, args, kw, live):
@@ -651,6 +694,7 @@ def _ambient_probe(modname, name, f, a0, kw, live, ref, b_live):
 
 
 _CODE_OPT = {}
+_LAST_ARGS = {}
 
 
 def _fresh_optimized(modname, name):
@@ -719,11 +763,17 @@ def _retained_probe(modname, name, f, a0, kw, live, ref, b_live):
     if live[0] != 'ok':
         return False
     idx = [i for i, a in enumerate(a0) if _numeric(a)]
+    other = None
+    prev = _LAST_ARGS.get((modname, name))
+    if prev is not None and _outcome_bits(('ok', list(prev[0]))) != _outcome_bits(('ok', list(a0))):
+        # the arguments of the previous probed call of this function: valid, and different from the present ones
+        other = copy.deepcopy(prev[0])
+        _call(f, copy.deepcopy(other), copy.deepcopy(prev[1]))
     if idx:
-        other = tuple(_scaled(a, 1 + 1e-3) if i in idx else copy.deepcopy(a) for i, a in enumerate(a0))
-        _call(f, other, copy.deepcopy(kw))
-    else:
-        other = None
+        other2 = tuple(_scaled(a, 1 + 1e-3) if i in idx else copy.deepcopy(a) for i, a in enumerate(a0))
+        _call(f, other2, copy.deepcopy(kw))
+        other = other if other is not None else other2
+    _LAST_ARGS[(modname, name)] = (copy.deepcopy(a0), copy.deepcopy(kw))
     STATS['retained_probes'] = STATS.get('retained_probes', 0) + 1
     now = _outcome_bits(live)
     if now != b_live:
@@ -773,6 +823,27 @@ def _result_edit_probe(modname, name, f, a0, kw, live, ref, b_live):
     return False
 
 
+_RESERVOIR = {}          # (module, function) -> [(args, kwargs, bits)] of its first probed calls
+REVISIT_AT = (40, 300, 700, 1500, 4000, 10000)
+
+
+def _revisit(modname, name, f, count):
+    """after many other calls (a bounded memo has wrapped around by then) the FIRST calls of the run are made again: same bits"""
+    if count not in REVISIT_AT:
+        return
+    for a0, kw, bits in _RESERVOIR.get((modname, name), []):
+        r = _call(f, copy.deepcopy(a0), copy.deepcopy(kw))
+        STATS['revisit_probes'] = STATS.get('revisit_probes', 0) + 1
+        if _outcome_bits(r) != bits:
+            # judged against a pristine copy of the module NOW (the validation switch may legitimately have changed since the first call)
+            ref = _call(_fresh(modname, name), copy.deepcopy(a0), copy.deepcopy(kw))
+            if _outcome_bits(ref) == _outcome_bits(r):
+                continue
+            _record(modname, name, 'revisit', a0, kw, r, ref)
+            HISTORY_EVENTS[-1]['calls_of_this_function_before_the_revisit'] = count
+            return
+
+
 def _wrap(modname, name, f):
     probe_ok = name not in NO_PROBE and not name.startswith('_')
     slow = name in SLOW
@@ -817,7 +888,18 @@ def _wrap(modname, name, f):
                     EVENTS.append({'fn': '%s.%s' % (modname.split('.')[-1], name), 'arg_index': i,
                                    'before': np.asarray(s[1], float).tolist(), 'after': np.asarray(a, float).tolist(),
                                    'all_args': [[t[0][0], _plain(t[0][1])] if t[0] is not None else ['other', _plain(t[1])] for t in snaps]})
+            if top and probe_ok and live is not None and not slow:
+                _depth[0] += 1
+                try:
+                    _revisit(modname, name, f, _count.get((modname, name), 0))
+                except Exception:
+                    pass
+                finally:
+                    _depth[0] -= 1
             if probe_now and live is not None:
+                key_ = (modname, name)
+                if len(_RESERVOIR.get(key_, [])) < 3 and _outcome_bits(live) is not None:
+                    _RESERVOIR.setdefault(key_, []).append((copy.deepcopy(a0), copy.deepcopy(k0), _outcome_bits(live)))
                 _depth[0] += 1
                 try:
                     _probe(modname, name, f, a0, k0, live)
@@ -834,6 +916,7 @@ def _wrap(modname, name, f):
                         _layout_probe(modname, name, f, a0, k0, live)
                     if not slow:
                         _keyword_probe(modname, name, f, a0, k0, live)
+                    _identity_probe(modname, name, f, a0, k0, live)
                 except Exception:
                     pass
                 finally:
@@ -960,6 +1043,9 @@ def violations():
         elif sc == 'threads':
             what = ('the same call made from four threads at once gives another result than made alone (scratch storage shared between '
                     'calls)')
+        elif sc == 'revisit':
+            what = ('one of the first calls of the run, made again after %s other calls of the same function, gives another result (a '
+                    'bounded memo that wrapped around)' % e.get('calls_of_this_function_before_the_revisit'))
         elif sc == 'retained':
             what = ('the object returned to the caller was overwritten by a later call of the same function with other arguments '
                     '(a result buffer shared between calls)')
@@ -1001,6 +1087,11 @@ def replay(v):
         print('replay %s (module-data): the stored event names the table that changed during the run (%s); re-run the check to reproduce the '
               'call history' % (v['fn'], v.get('observed')))
         return 1
+    if v.get('scenario') == 'revisit':
+        print('replay %s (revisit): the event needs the %s calls of the run that preceded it; re-run the check (same seed) to reproduce it. '
+              'Stored: used module %s | pristine module %s' % (v['fn'], v.get('calls_of_this_function_before_the_revisit'),
+                                                              v.get('result_in_used_module'), v.get('result_in_pristine_module')))
+        return 1
     import importlib
     modname, name = v['fn'].split('.')
     m = importlib.import_module('xfab.' + modname)
@@ -1021,6 +1112,21 @@ def replay(v):
         bad = (r1[0] == 'ok' and (r2[0] != 'ok' or not _close(r1[1], r2[1]))) or (r1[0] != 'ok' and r2[0] == 'ok')
         print('replay %s (keyword call): positional %s | by keyword %s -> %s' % (v['fn'], _plain(r1[1]), _plain(r2[1]), 'VIOLATION' if bad else 'holds'))
         return 1 if bad else 0
+    if v.get('purity') == 'container' and v.get('identity'):
+        idn = v['identity']
+        base = [conv(x) for x in v['args']]
+        kw0 = dict(v.get('kwargs') or {})
+        val = idn['value']
+        alt = ''.join(list(val)) if isinstance(val, str) else (int(val) if idn['as'] == 'int flag' else np.bool_(val))
+        b, k2 = list(copy.deepcopy(base)), dict(kw0)
+        if idn['where'] == 'arg':
+            b[idn['key']] = alt
+        else:
+            k2[idn['key']] = alt
+        r1, r2 = _call(f, copy.deepcopy(base), dict(kw0)), _call(f, b, k2)
+        bad = r1[0] == 'ok' and (r2[0] != 'ok' or not _close(r1[1], r2[1]))
+        print('replay %s (%s): as written %s | as %s %s -> %s' % (v['fn'], idn['as'], _plain(r1[1]), idn['as'], _plain(r2[1]), 'VIOLATION' if bad else 'holds'))
+        return 1 if bad else 0
     if v.get('purity') == 'container':
         base = [np.array(x, float) if (i == v['arg_index'] and v['original_container'] == 'ndarray') else conv(x) for i, x in enumerate(v['args'])]
         other = list(copy.deepcopy(base))
@@ -1037,7 +1143,7 @@ def replay(v):
                                  'tuple': lambda: (tuple(map(tuple, x)) if x and isinstance(x[0], list) else tuple(x)),
                                  'fortran-ordered': lambda: np.asfortranarray(np.array(x, float)),
                                  'transposed-view': lambda: np.array(x, float).T.copy().T,
-                                 'strided-view': _strided}[v['container']]()
+                                 'strided-view': _strided, 'read-only': lambda: _readonly(np.array(x, float))}[v['container']]()
         r1, r2 = _call(f, base, dict(v.get('kwargs') or {})), _call(f, other, dict(v.get('kwargs') or {}))
         bad = r1[0] == 'ok' and (r2[0] != 'ok' or not _close(r1[1], r2[1]))
         print('replay %s (container): %s %s | %s %s -> %s' % (v['fn'], v['original_container'], _plain(r1[1]), v['container'], _plain(r2[1]),
